@@ -108,6 +108,20 @@ func genMatchCases(r *Rng, n int) {
 			tree = &Cond{K: pick(cr, []string{"and", "or"}), A: extra, B: tree}
 		}
 		expr := ctx.Print(tree, 0)
+		if cr.Chance(3) {
+			// a list index given through a placeholder or an attribute (an extension of the library: DynamoDB only takes
+			// literals there): any number may arrive, negative, fractional or huge — the verdict is the model's, a
+			// runtime fault is nobody's
+			ctx = NewExprCtx(cr)
+			ctx.Values[":i"] = AV{T: "N", V: []byte(pick(cr, []string{"-1", "0", "1", "7", "0.5", "-0.5", "1e30", "-1e30", "-9223372036854775808", "2"}))}
+			ctx.Values[":v"] = S("a")
+			lst := "l1"
+			if _, ok := item.get("lz"); ok && cr.Bool() {
+				lst = "lz"
+			}
+			expr = pick(cr, []string{lst + "[:i] = :v", "attribute_exists(" + lst + "[:i])", lst + "[:i] IN (:v)", "NOT " + lst + "[:i][0] = :v", ":v = " + lst + "[:i].k"})
+			tree = nil
+		}
 		impl := runMatch(expr, item, ctx.Names, ctx.Values)
 		emit(Case{"kind": "match", "expr": hx([]byte(expr)), "text": expr, "item": canonKeysOnly(item), "names": namesList(ctx.Names),
 			"values": valuesItem(ctx.Values), "tree": tree, "bareReserved": ctx.BareReserv, "impl": impl})
